@@ -176,7 +176,8 @@ static int wr_run_legs(const char *name, int nslices, wr_leg_fn fn, void *arg, d
     }
     int viol = 0, broken = 0;
     long *lastp = (long *)calloc(nslices, sizeof(long)); double *lastt = (double *)calloc(nslices, sizeof(double)); int *alive = (int *)calloc(nslices, sizeof(int));
-    for (int s = 0; s < nslices; s++) { alive[s] = 1; lastt[s] = wr_now(); lastp[s] = -1; }
+    double *lastseen = (double *)calloc(nslices, sizeof(double));
+    for (int s = 0; s < nslices; s++) { alive[s] = 1; lastt[s] = 0; lastseen[s] = wr_now(); lastp[s] = -1; }
     int nalive = nslices;
     while (nalive > 0) {
         int any = 0;
@@ -195,9 +196,12 @@ static int wr_run_legs(const char *name, int nslices, wr_leg_fn fn, void *arg, d
                 }
                 continue;
             }
-            double now = wr_now();
-            if (legs[s]->progress != lastp[s]) { lastp[s] = legs[s]->progress; lastt[s] = now; }
-            else if (stall_s > 0 && now - lastt[s] > (strncmp(legs[s]->curcase, "(worker", 7) ? stall_s : 600)) {   /* start-up (parsec_init) may take long on a loaded machine */
+            /* stall time = sum of the parent's own poll intervals, each capped at 0.1 s: a frozen / starved machine (VM pause,
+             * clock jump) stalls the parent as well and must not be mistaken for a hang of the worker */
+            double now = wr_now(), dt = now - lastseen[s]; lastseen[s] = now; if (dt > 0.1) dt = 0.1;
+            if (legs[s]->progress != lastp[s]) { lastp[s] = legs[s]->progress; lastt[s] = 0; }
+            else lastt[s] += dt;
+            if (stall_s > 0 && lastt[s] > (strncmp(legs[s]->curcase, "(worker", 7) ? stall_s : 600)) {   /* start-up (parsec_init) may take long on a loaded machine */
                 kill(pids[s], SIGKILL); waitpid(pids[s], &st, 0); alive[s] = 0; nalive--; any = 1;
                 char msg[256]; snprintf(msg, sizeof(msg), "hang: no progress for %.0f s while executing this case (a wait call never returns)", stall_s);
                 if (!strncmp(legs[s]->curcase, "(worker", 7)) { broken++; fprintf(stderr, "rt: worker %d stalled during start-up\n", s); }
@@ -223,7 +227,7 @@ static int wr_run_legs(const char *name, int nslices, wr_leg_fn fn, void *arg, d
     wr_report(name, states, trans, execs, nontriv, (long)u.n + dropped, exh, viol, wr_now() - t0, extra, sp, nsp);
     wr_total_violations += viol; wr_total_broken += broken;
     for (int s = 0; s < nslices; s++) munmap(legs[s], sizeof(wr_leg_t));
-    free(legs); free(pids); free(lastp); free(lastt); free(alive); free(u.v);
+    free(legs); free(pids); free(lastp); free(lastt); free(lastseen); free(alive); free(u.v);
     return viol;
 }
 
